@@ -526,10 +526,14 @@ def leaf_search(scn, jpath, tm, goals, rng, base, tries=200):
             return found
         if isinstance(s, str):
             for g, fn in goals.items():
-                if g not in found and fn(s):
+                if g not in found and not g.startswith("num:") and fn(s):
                     found[g] = d
-            if len(found) == len(goals):
-                break
+        elif isinstance(s, (int, float)) and not isinstance(s, bool):
+            for g, fn in goals.items():
+                if g not in found and g.startswith("num:") and fn(s):
+                    found[g] = d
+        if len(found) == len(goals):
+            break
     return found
 
 
